@@ -60,9 +60,10 @@ def digests(ids: List[str], runs: int, jobs: int, seed: int) -> Dict[str, List[s
     return out
 
 
-def _spawn(ids: List[str], runs: int, jobs: int, seed: int, hashseed: str) -> Dict[str, List[str]]:
+def _spawn(ids: List[str], runs: int, jobs: int, seed: int, hashseed: str, extra_env: Optional[Dict[str, str]] = None) -> Dict[str, List[str]]:
     env = dict(os.environ)
     env["PYTHONHASHSEED"] = hashseed
+    env.update(extra_env or {})
     cmd = [sys.executable, "-m", "sim.cli", "digests", "--ids", ",".join(ids), "--runs", str(runs),
            "--jobs", str(jobs), "--seed", str(seed)]
     p = subprocess.run(cmd, cwd=driver.VERIF_DIR, env=env, capture_output=True, text=True, timeout=7200)
@@ -83,11 +84,16 @@ def determinism(ids: Optional[List[str]], runs: Optional[int]) -> int:
     configs = [("16 workers, driver PYTHONHASHSEED=0", runs, 16, "0"),
                ("16 workers, driver PYTHONHASHSEED=4242", runs, 16, "4242"),
                ("1 worker, driver PYTHONHASHSEED=77", max(6, runs // 10), 1, "77"),
-               ("5 workers, driver PYTHONHASHSEED=random", max(12, runs // 4), 5, "random")]
+               ("5 workers, driver PYTHONHASHSEED=random", max(12, runs // 4), 5, "random", {}),
+               # the sessions' cyclic garbage collector runs 14 times as often / almost never: finalisers of
+               # abandoned file objects fire at other moments
+               ("16 workers, sessions with gc threshold 50", runs, 16, "0", {"VERIF_GC_PROBE": "50"}),
+               ("16 workers, sessions with gc threshold 100000", max(12, runs // 2), 16, "0", {"VERIF_GC_PROBE": "100000"})]
+    configs = [c if len(c) == 5 else c + ({},) for c in configs]
     results = []
-    for name, n, jobs, hs in configs:
+    for name, n, jobs, hs, extra in configs:
         t1 = time.time()
-        results.append((name, _spawn(ids, n, jobs, seed, hs)))
+        results.append((name, _spawn(ids, n, jobs, seed, hs, extra)))
         print(f"[determinism] {name}: {len(results[-1][1])} runs in {time.time() - t1:.1f}s", flush=True)
     base_name, base = results[0]
     bad = 0
